@@ -195,11 +195,29 @@ def _build(cfg):
     from regions import PixCoord, CirclePixelRegion, EllipsePixelRegion, RectanglePixelRegion, PolygonPixelRegion
     cx, cy = cfg['phase']
     s = cfg['shape']
-    if s == 'circle':
-        return CirclePixelRegion(PixCoord(cx, cy), cfg['r'])
-    if s == 'ellipse':
-        return EllipsePixelRegion(PixCoord(cx, cy), 2.0 * cfg['rx'], 2.0 * cfg['ry'],
-                                  angle=math.degrees(cfg['theta']) * u.deg)
+    if s in ('circle', 'ellipse'):
+        # construction route (deterministic in the configuration): fresh | built elsewhere, used, then the centre
+        # object modified in place | built with other sizes, used, then sizes and centre re-assigned
+        import zlib
+        route = zlib.crc32(repr(sorted((k, cfg[k]) for k in ('shape', 'r', 'rx', 'ry', 'theta', 'phase') if k in cfg)).encode()) % 6
+        c0 = PixCoord(cx, cy) if route > 1 else PixCoord(cx + 3.25, cy - 1.5)
+        f = 1.0 if route != 1 else 1.75
+        if s == 'circle':
+            reg = CirclePixelRegion(c0, cfg['r'] * f)
+        else:
+            reg = EllipsePixelRegion(c0, 2.0 * cfg['rx'] * f, 2.0 * cfg['ry'] * f, angle=math.degrees(cfg['theta']) * u.deg)
+        if route <= 1 and max(cfg.get('r', 0), cfg.get('rx', 0), cfg.get('ry', 0)) <= 64.0:
+            reg.bounding_box
+            reg.to_mask('center')
+        if route == 0:
+            reg.center.x, reg.center.y = cx, cy
+        elif route == 1:
+            reg.center = PixCoord(cx, cy)
+            if s == 'circle':
+                reg.radius = cfg['r']
+            else:
+                reg.width, reg.height = 2.0 * cfg['rx'], 2.0 * cfg['ry']
+        return reg
     if s == 'rectangle':
         return RectanglePixelRegion(PixCoord(cx, cy), cfg['width'], cfg['height'],
                                     angle=math.degrees(cfg['theta']) * u.deg)
